@@ -34,6 +34,12 @@ How the obligations are read off the facts (so that they hold for every spelling
     Command::new / arg / args in the vocabulary (C16_helpers.argv_model): one entry per argv word with the conditions on the
     struct's fields under which it is emitted — a shared private assembler, an extension trait on Command, a delegation to
     `From<&X>` and an iterator chain handed to `args` (`.chain(force.then_some("--force"))`) give the same model.
+    Table-driven emission is the same argv: a `for` over a literal table of (flag, word) / (option, value) rows (array,
+    vec![], rows as tuples or a private struct), the table behind `.filter(..)` / `.filter_map(..)` and consumed by
+    `for_each` or handed to `args` as a pipeline, or a local closure called once per word — each word is the substituted
+    row's word under the row's own tests (C16_helpers._level_row / alts_conds), rows in table order; a loop that can be left
+    before its last row, positional adapters (take / skip) and function values that cannot be entered make the affected
+    words opaque (UNPROVEN), never absent.
   * "the drop removes the names pack created" compares *terms over the guard* (C16_helpers.guard_term): a name is a field of
     the guard or a pure string function of its fields (also behind a private accessor, inlined), so a guard that stores only
     the image name and derives the volume names is the same guard; "names derive from random_docker_identifier" and "the
